@@ -229,6 +229,22 @@ DESC = {
                 "a hook that clears the name plus a non-empty namespace"),
     "r9c14-4": ("C14", "Same idea as r9c12-3, written independently: the canonical checksum value is printed without percent-encoding.",
                 "the checksum qualifier and an algorithm name containing '&', '#', space, '+' or '%'"),
+    "r10c12-1": ("C12", "The parser deletes raw TAB / LF / CR from the input 'like the WHATWG URL parser'.",
+                "a control-whitespace character in an algorithm name, spelled raw in parsed text (an unescaped spelling of %09 / %0A / %0D)"),
+    "r10c12-2": ("C12", "After the sort the writer dedups on the wrong tuple field: dedup_by(|a, b| a.1 == b.1) compares the hex instead of the name.",
+                "two entries that are neighbours in the sorted text and carry byte-identical hex (two empty digests included)"),
+    "r10c12-3": ("C12", "SHA alias folding: algorithm names matching sha-<digits> are rewritten to sha<digits> when parsing and in insert_raw.",
+                "a name that is exactly 'sha-' followed by digits: sha-256 comes back as sha256, and the two overwrite each other"),
+    "r10c12-4": ("C12", "ASCII-only guard in the parser: if !s.is_ascii() return InvalidEscape.",
+                "a non-ASCII algorithm name parsed from unescaped text (PRÜF); the escaped spelling and the builder still work"),
+    "r10c14-1": ("C14", "The parser validates a 'checksum' qualifier eagerly: one that is malformed as written fails with InvalidQualifier during parsing, before conversion and hook; build() is untouched.",
+                "the parse path, a malformed checksum in the input, and a user type whose hook would have repaired or dropped it (or whose conversion / hook would have failed). NOT reported by C14, by decision: the statement bounds the calls from above ('at most once per parse') and fixes the order inside build(); an additional refusal before the hook contradicts none of its clauses, and an oracle that demanded the hook be reached would raise a false alarm on a parser that validates early (see DESIGN.md 4.2, 'Not asserted')"),
+    "r10c14-2": ("C14", "The pypi / nuget name rules move into a helper keyed on the type *string* that build() applies after the hook.",
+                "a user type whose package_type() string is pypi or nuget: its hook-written name is lower-cased (and dash-folded)"),
+    "r10c14-3": ("C14", "Serialize fast path that hand-assembles the string for simple PURLs and forgets to escape the version.",
+                "serde only: no namespace, qualifiers or subpath, an unreserved name, and a version that needs escaping (caught by C16, whose business it is)"),
+    "r10c14-4": ("C14", "Case-insensitive scheme via lower-casing the whole input when strip_prefix(\"pkg:\") misses.",
+                "a non-lower-case scheme plus an upper-case letter in the type: for PKG:Corp/Name the conversion receives \"corp\""),
 }
 
 
@@ -253,6 +269,7 @@ def main():
     before7 = table(os.path.join(ROOT, "RESULTS-round7-before-strengthening.tsv"))
     before8 = table(os.path.join(ROOT, "RESULTS-round8-before-strengthening.tsv"))
     before9 = table(os.path.join(ROOT, "RESULTS-round9-before-strengthening.tsv"))
+    before10 = table(os.path.join(ROOT, "RESULTS-round10-before-strengthening.tsv"))
     for name, (prop, what, needs) in sorted(DESC.items()):
         d = os.path.join(ROOT, name)
         if not os.path.isdir(d):
@@ -268,10 +285,11 @@ def main():
         b7 = before7.get(name, {})
         b8 = before8.get(name, {})
         b9 = before9.get(name, {})
+        b10 = before10.get(name, {})
         meta = {
             "id": name,
             "property_broken": prop,
-            "origin": f"fresh sub-agent '{name.split('-')[0]}', change #{name.split('-')[1]}; it was given only the text of {prop} and a scratch worktree of /repo, nothing from /verif" + ("; round 2: it was also told which ideas round 1 had produced and asked for different ones" if name.startswith("r2") else "") + ("; round 3: it was also told which ideas rounds 1 and 2 had produced, and pointed at rarely exercised public API paths, call order, thresholds and continued use after a failure" if name.startswith("r3") else "") + ("; round 4: told the ideas of rounds 1-3 and asked to read the code paths end to end for small-effect defects" if name.startswith("r4") else "") + ("; round 5: told the ideas of rounds 1-4, with a focus per property: hash order / entry count / call sequences (C12), combinations of conversion, hook and input shape (C14), misbehaving sinks and sources only (C16)" if name.startswith("r5") else "") + ("; round 6: told the ideas of rounds 1-5 and asked to widen the search to the whole crate and to single build configurations" if name.startswith("r6") else "") + ("; round 7: told the ideas of rounds 1-6 and pointed at semantic slips (escaping sets, separators, parser/formatter and builder/parser asymmetries, type parameters, into_builder state, error paths)" if name.startswith("r7") else "") + ("; round 8: told the ideas of rounds 1-7" if name.startswith("r8") else "") + ("; round 9: told the ideas of rounds 1-8 (the C16 agent of this round did not deliver)" if name.startswith("r9") else ""),
+            "origin": f"fresh sub-agent '{name.split('-')[0]}', change #{name.split('-')[1]}; it was given only the text of {prop} and a scratch worktree of /repo, nothing from /verif" + ("; round 2: it was also told which ideas round 1 had produced and asked for different ones" if name.startswith("r2") else "") + ("; round 3: it was also told which ideas rounds 1 and 2 had produced, and pointed at rarely exercised public API paths, call order, thresholds and continued use after a failure" if name.startswith("r3") else "") + ("; round 4: told the ideas of rounds 1-3 and asked to read the code paths end to end for small-effect defects" if name.startswith("r4") else "") + ("; round 5: told the ideas of rounds 1-4, with a focus per property: hash order / entry count / call sequences (C12), combinations of conversion, hook and input shape (C14), misbehaving sinks and sources only (C16)" if name.startswith("r5") else "") + ("; round 6: told the ideas of rounds 1-5 and asked to widen the search to the whole crate and to single build configurations" if name.startswith("r6") else "") + ("; round 7: told the ideas of rounds 1-6 and pointed at semantic slips (escaping sets, separators, parser/formatter and builder/parser asymmetries, type parameters, into_builder state, error paths)" if name.startswith("r7") else "") + ("; round 8: told the ideas of rounds 1-7" if name.startswith("r8") else "") + ("; round 9: told the ideas of rounds 1-8 (the C16 agent of this round did not deliver)" if name.startswith("r9") else "") + ("; round 10: told the ideas of rounds 1-9 (the C16 agent of this round did not deliver)" if name.startswith("r10") else ""),
             "change": what,
             "needs_in_order_to_manifest": needs,
             "files": {"patch": "patch.diff", "demonstration": "demo.rs (drop into purl/tests/)", "author_notes": "notes.md"},
@@ -299,6 +317,11 @@ def main():
                 "verdict": r.get("verdict"),
             },
         }
+        if b10:
+            meta["checks_when_round_10_arrived"] = {
+                "note": "result with the checks that met round 10 (nothing was changed afterwards)",
+                "C12": b10.get("C12"), "C14": b10.get("C14"), "C16": b10.get("C16"), "verdict": b10.get("verdict"),
+            }
         if b9:
             meta["checks_before_they_were_strengthened_for_round_9"] = {
                 "note": "result with the checks at commit 0341af4 (the version of the final consistent measurement, which met round 9)",
